@@ -12,8 +12,8 @@ Definition f37_n5 : str := [110; 53].      (* "n5": cell 2 := 1 again *)
 Definition f37_lower (s : str) : str := s.
 
 Definition f37_cmds : list cmd :=
-  [CInit; CNew f37_m4 1 [120; 49]; GEdit 1%nat 2; GEdit 2%nat 2; CRefresh;
-   CNew f37_n5 2 [120; 50]; GEdit 2%nat 1; CRefresh;
+  [CInit; CNew f37_m4 1 [120; 49]; GEdit 1%nat 2; GEdit 2%nat 2; CRefresh None;
+   CNew f37_n5 2 [120; 50]; GEdit 2%nat 1; CRefresh None;
    CPop None None true false false;                      (* stg pop --all *)
    GEdit 11%nat 3; GCommit 3 [120; 51]].                 (* upstream: an unrelated change *)
 
